@@ -5,6 +5,8 @@ pf=$(readlink -f "$1"); shift
 if ! git -C /repo diff --quiet; then echo "/repo is dirty"; exit 3; fi
 git -C /repo apply "$pf" || { echo "patch does not apply"; exit 3; }
 rm -f build/replay/*.json
+# evidence written while a change is applied must not survive: keep the files of the unchanged tree
+rm -rf build/evidence.keep; cp -r evidence build/evidence.keep
 for p in "$@"; do
   ./check $p 2>&1 | grep -E "^(VIOLATION|INCONCLUSIVE|OK|KNOWN|failed obligation)" | cut -c1-260
   for f in build/replay/$p-*.json; do [ -f "$f" ] && python3 -c "
@@ -13,3 +15,4 @@ d=json.load(open('$f')); fi=d.get('failing_input'); print('   replay:', (json.du
   rm -f build/replay/$p-*.json
 done
 git -C /repo checkout -- .
+rm -rf evidence; mv build/evidence.keep evidence
